@@ -593,6 +593,10 @@ func ruleR20e(h *H) {
 		switch x := v.(type) {
 		case *ssa.Call:
 			if b, ok := x.Call.Value.(*ssa.Builtin); ok && b.Name() == "append" {
+				if !ir.LoadsField(x.Call.Args[0], pkg, wt, pf) {
+					h.Bad(rule, "pending list rewritten in "+ir.FuncName(fn), h.pos(w.Instr), "the pending list is rebuilt from "+ir.Describe(x.Call.Args[0])+" (not an append at its tail): responses are matched to requests purely by position, so removing or reordering entries hands every later response to the wrong request")
+					continue
+				}
 				sends := h.P.CallsIn(fn, streamSend)
 				ok2 := len(sends) > 0
 				why := "no stream Send follows the enqueue in this function"
